@@ -965,8 +965,21 @@ HelperCase(d, idsel, ai, rs) ==
   LET ids == idsel IN
   [BaseCase EXCEPT !.id = <<"h", d, ids, ai, rs, 0, 0>>, !.fam = "helpers", !.vm = "nodata",
                    !.prog = HProg(d, ids, ArgSets[ai]), !.helpers = RegSets(ids)[rs]]
+\* a packet load after a helper call (the helper may change every caller-saved machine register):
+\* kind 1 ldabs, 2 ldind, 3 both; at call depth d; on each VM kind that has a packet
+HelperThenLoad(kind, d, vk, w) ==
+  [WithPkt([BaseCase EXCEPT !.vm = vk], FrameLen) EXCEPT
+     !.id = <<"hl", kind, d, vk, w, 0, 0>>, !.fam = "helpers", !.helpers = {1},
+     !.prog = Flat([k \in 1..(2*d) |-> IF k % 2 = 1 THEN CallxI(1) ELSE ExitI]
+                \o << Mov64I(6, 3), Mov64I(7, 0) >> \o HCall(1, ArgSets0[1]) \o << Mov64R(7, 0) >>
+                \o (IF kind \in {1, 3} THEN << LdAbsI(w, 2), Add64R(7, 0) >> ELSE <<>>)
+                \o (IF kind \in {2, 3} THEN << LdIndI(w, 6, 1), Add64R(7, 0) >> ELSE <<>>)
+                \o << Mov64R(0, 7), ExitI >>)]
+HelperThenLoadCases ==
+  { HelperThenLoad(t[1], t[2], t[3], t[4]) : t \in (1..3) \X {0, 1} \X {"raw", "mbuff", "fixed"} \X {1, 8} }
 IdSels == { <<HelperIds[k]>> : k \in 1..6 } \cup { <<1, 6>>, <<-1, 0, MinI32>>, <<2147483647, 1, 1>> }
 HelperCases(u) ==
+  HelperThenLoadCases \cup
   { HelperCase(t[1], t[2], t[3], t[4]) :
       t \in { x \in {0, 1, 2, 3, 7, 8} \X IdSels \X (1..Len(ArgSets)) \X (1..3) : Keep(x[1] + 3 * x[3] + 7 * x[4] + Len(x[2])) } }
 
